@@ -571,9 +571,9 @@ type result struct {
 	consumed   int
 }
 
-func collect(ch chan *dns.Envelope, cli *endpoint) result {
+func collect(ch chan *dns.Envelope, cli *endpoint, limit time.Duration) result {
 	var r result
-	wd := time.NewTimer(watchdog)
+	wd := time.NewTimer(limit)
 	defer wd.Stop()
 	for {
 		select {
@@ -649,7 +649,11 @@ func runHarnessSender(c xferCase) (result, plan, error) {
 	if c.Fault.Kind != "stall" {
 		srv.closeWrite()
 	} // stall: the sender keeps the stream open and sends nothing more; the receiver's ReadTimeout must end the transfer
-	r := collect(ch, cli)
+	limit := watchdog
+	if c.Fault.Kind == "stall" {
+		limit = 10 * time.Second // 250 x the shortened read timeout
+	}
+	r := collect(ch, cli, limit)
 	srv.Close()
 	return r, p, nil
 }
@@ -788,7 +792,7 @@ func describe(r result) string {
 // common part: the channel closes, and the receiver has closed the connection by then.
 func checkTermination(r result) error {
 	if !r.chanClosed {
-		return pbt.Errf("the envelope channel was not closed within %v: %s", watchdog, describe(r))
+		return pbt.Errf("the envelope channel was not closed within the watchdog time (%v; 10s for a stalled sender): %s", watchdog, describe(r))
 	}
 	if !r.connClosed {
 		return pbt.Errf("the channel was closed but the receiver had not closed the connection: %s", describe(r))
@@ -997,7 +1001,7 @@ func checkLibrarySender(c xferCase) error {
 		o.stop()
 		return fmt.Errorf("Transfer.In returned %v", err)
 	}
-	r := collect(ch, cli)
+	r := collect(ch, cli, watchdog)
 	stopErr := o.stop()
 	var st string
 	select {
